@@ -26,7 +26,17 @@ U10 = [[0, 1, 2, 3, 4, 5, 7, 8, 15, 16], [16, 15, 8, 7, 5, 4, 3, 2, 1, 0],
        [5, 7, 8, 15, 16, 255, 256, 1 << 20, (1 << 31) - 1, B63 + 1]]
 FAMS = [("map", "itv"), ("map", "bool"), ("pset", "itv"), ("dset", "itv")]   # sets ignore the lattice
 H_RE = re.compile(r'^<<"H", (".*")>>$', re.M)
-EXPECT_RE = re.compile(r'^<<"EXPECT", (\d+), (\d+), (\d+), (".*")>>$', re.M)
+
+
+def tagged(r, tag):
+    """PrintT(<<tag, ToJson(tuple)>>) lines (each record is one line whatever its length), duplicates removed"""
+    seen, res = set(), []
+    for m in re.findall(r'^<<"%s", (".*")>>$' % tag, r.out, re.M):
+        if m not in seen:
+            seen.add(m)
+            res.append(json.loads(json.loads(m)))
+    return res
+
 LOCK = threading.Lock()
 
 
@@ -125,10 +135,10 @@ def validate_chunk(ck, wd, label, nk, lat, outs, kp, workers=3):
     env.update({"C19_TRACES": tp, "KNOWN_FINDINGS": kp})
     r = tlc("EnvMapTrace", "EnvMapTrace", "c19-" + label, env=env, workers=workers, cont=True, timeout=2400, heap="5g",
             extra=["-noGenerateSpecTE"])
-    fails = [dict(id=f[0], step=f[1], alt=f[2], op=f[3], code=f[4]) for f in r.tuples("FAIL")]
-    knowns = [dict(kid=f[0], id=f[1], step=f[2], alt=f[3], op=f[4], code=f[5]) for f in r.tuples("KNOWN")]
-    stuck = r.tuples("STUCK")
-    expect = {(int(a), int(b), int(c)): json.loads(json.loads(d)) for a, b, c, d in EXPECT_RE.findall(r.out)}
+    fails = [dict(id=f[0], step=f[1], alt=f[2], op=f[3], code=f[4]) for f in tagged(r, "FAIL")]
+    knowns = [dict(kid=f[0], id=f[1], step=f[2], alt=f[3], op=f[4], code=f[5]) for f in tagged(r, "KNOWN")]
+    stuck = tagged(r, "STUCK")
+    expect = {(f[0], f[1], f[2]): json.loads(f[3]) for f in tagged(r, "EXPECT")}
     if stuck:
         raise vlib.Broken("a generated history is not a behaviour of EnvMap (generator and validator disagree): %s" % stuck[:3])
     if r.is_violation and not fails:
@@ -359,7 +369,10 @@ def replay(path):
     account(ck, outs)
     ck.cov["rule"] = "replay of one recorded history"
     ck.sample(outs[0])
+    per = collections.OrderedDict()
     for f in fails:
-        ck.violation("replayed: after step %d ('%s') the real container's %s differs from the EnvMap machine; expected %s" %
-                     (f["step"], f["op"], f["code"], json.dumps(expect.get((one["id"], f["step"], 0)))), case)
+        per.setdefault((f["step"], f["op"]), []).append(f["code"])
+    for (step, op), codes in per.items():
+        ck.violation("replayed: after step %d ('%s') the real container differs from the EnvMap machine in: %s; expected %s" %
+                     (step, op, ", ".join(sorted(codes)), json.dumps(expect.get((one["id"], step, 0)))), case)
     return ck.finish()
